@@ -142,8 +142,9 @@ def fit_minuit_v2(fcn, bounds_dict={}, hesse=True, minos=False, **kwargs):
     ndf = len(var_names)
     # HESSE/MINOS leave the model at their last evaluation point
     fcn.vm.set_all([float(i) for i in m.values])
+    # all parameters, as the scipy path returns them: a saved result is complete
     ret = FitResult(
-        dict(zip(var_names, m.values)), fcn, m.fval, ndf=ndf, success=m.valid
+        fcn.get_params(), fcn, m.fval, ndf=ndf, success=m.valid
     )
     # print(m.errors)
     ret.set_error(dict(zip(var_names, m.errors)))
